@@ -58,9 +58,12 @@ theorem C08_vars_order (ctx : ImplContext) (ds : List InitData) (h : ctx.structA
       [Tok.ident "let", .ident x.ident, .punct '=' false] ++ quoteAction x.action none ctx ++ [.punct ';' false]) := by
   simp [structPreInit, h, skel, tmpl_struct_pre_init, Tm.instList, Tm.inst, List.getD]
 
-/-- vars come before the result is built: `pre_init` precedes `init` in every body that has both -/
+/-- vars come before the result is built: every body that builds a result (both dialects of (try_)into included:
+    the plain one and the one that starts from `Default::default()`) has `pre_init` exactly once, before `init` -/
 theorem C08_vars_before_init :
-    ([tmpl_quote_from_trait.getD 0 [], tmpl_quote_try_from_trait.getD 0 [], tmpl_quote_into_trait.getD 1 [], tmpl_quote_try_into_trait.getD 1 [],
+    ([tmpl_quote_from_trait.getD 0 [], tmpl_quote_try_from_trait.getD 0 [],
+      tmpl_quote_into_trait.getD 0 [], tmpl_quote_into_trait.getD 1 [],
+      tmpl_quote_try_into_trait.getD 0 [], tmpl_quote_try_into_trait.getD 1 [],
       tmpl_quote_into_existing_trait.getD 0 [], tmpl_quote_try_into_existing_trait.getD 0 []].all fun sk =>
         let hs := Tm.holesList sk
         hs.idxOf "pre_init" < hs.idxOf "init" && hs.count "pre_init" == 1 && hs.count "init" == 1) = true := by decide
